@@ -39,7 +39,8 @@ ASSUMPTIONS = [
     'binary: TIME only for version >= 3 (ValueError accepted below); ints in int32; floats float32-representable; '
     'colours 0-255; Time a multiple of 1/10000 s inside int32; angle components in [0, 360)',
     'KeyValues2: an element type is never a value-type keyword, "<valuetype>_array", "element" or "elementid" '
-    '(compared case-insensitively) - these are in-band syntax',
+    '(compared case-insensitively) - these are in-band syntax; any other type, including ones that merely end in '
+    '"_array"/"_Array" or start with a value-type word (DmeFloat_Array, Int_array_array, element_), is legal and generated',
     'unicode="ascii" with a non-ASCII string anywhere in the reachable graph must raise UnicodeEncodeError; '
     'unicode="silent" output is parsed with unicode=True as documented',
     'cull_uuid (nested layout): UUIDs of elements referenced at most once and not the root are not compared',
@@ -226,6 +227,8 @@ def execute_kv2(desc, ctx):
                 ctx.label('cull_uuid_dropped')
             if not flat and not cull and facts['fold_name_inline']:
                 ctx.label('fold_name_inline')
+            if not flat and not cull and facts['array_suffix_type_inline']:
+                ctx.label('array_suffix_type_inline')
     after = dmxgen.canon_graph(root)
     ctx.check(dmxgen.canon_diff(want, after) is None, 'no_mutation', 'export_kv2() changed the graph')
 
@@ -644,7 +647,7 @@ SUBCHECKS = [
         must_hit=_SHAPES + ('time_rejected', 'signed_zeros') + _cells_must(
             ['bin1', 'bin2', 'bin3', 'bin4', 'bin5'], skip={('time', 'bin1'), ('time', 'bin2')})),
     Sub('kv2', execute_kv2, strategy=strategy_kv2, quick=800, thorough=40000, floor=100, quick_shards=4,
-        must_hit=_SHAPES + ('cull_uuid_dropped', 'fold_name_inline') + _cells_must(['kv2n', 'kv2f'])),
+        must_hit=_SHAPES + ('cull_uuid_dropped', 'fold_name_inline', 'array_suffix_type_inline') + _cells_must(['kv2n', 'kv2f'])),
     Sub('binary-decoder', execute_decoder, strategy=strategy_decoder, quick=1500, thorough=50000, floor=200,
         quick_shards=4,
         must_hit=_EDITS + ('signed_zeros', 'v1', 'v2', 'v3', 'v4', 'v5', 'stub', 'stub_in_array', 'null_in_array', 'non_ascii')
